@@ -148,8 +148,8 @@ def compileExpr : Expr → Comp → M Comp
     bnd (compileExpr e c) fun c =>
     let c := add c .appendToList false
     bnd (match condSkipIdx with
-         | some idx => (patchPopJump c.chunk idx c.chunk.length "compiler.rs:289").map
-             fun ch => { c with chunk := ch }
+         | some idx => bnd (patchPopJump c.chunk idx c.chunk.length "compiler.rs:289")
+             fun ch => .ok { c with chunk := ch }
          | none => .ok c) fun c =>
     let c := add c (.jump startIdx) false
     bnd (patchIterate c.chunk startIdx c.chunk.length "compiler.rs:297") fun ch =>
